@@ -1,9 +1,12 @@
 package main
 
 import (
+	"bytes"
 	"encoding/hex"
+	"encoding/json"
+	"fmt"
 	"math/big"
-	"strconv"
+	"sort"
 )
 
 // ---------------------------------------------------------------- constants of the harness
@@ -20,6 +23,46 @@ const (
 	ctxDifficulty    = uint64(0x20000)
 )
 
+type address [20]byte
+
+func (a address) MarshalText() ([]byte, error) { return []byte(hex.EncodeToString(a[:])), nil }
+func (a *address) UnmarshalText(b []byte) error {
+	if len(b) == 0 {
+		*a = address{}
+		return nil
+	}
+	d, err := hex.DecodeString(string(b))
+	if err != nil || len(d) != 20 {
+		return fmt.Errorf("bad address %q", b)
+	}
+	copy(a[:], d)
+	return nil
+}
+
+type word [32]byte
+
+func (w word) MarshalText() ([]byte, error) { return []byte(hex.EncodeToString(w[:])), nil }
+func (w *word) UnmarshalText(b []byte) error {
+	d, err := hex.DecodeString(string(b))
+	if err != nil || len(d) != 32 {
+		return fmt.Errorf("bad word %q", b)
+	}
+	copy(w[:], d)
+	return nil
+}
+
+type hexBytes []byte
+
+func (h hexBytes) MarshalText() ([]byte, error) { return []byte(hex.EncodeToString(h)), nil }
+func (h *hexBytes) UnmarshalText(b []byte) error {
+	d, err := hex.DecodeString(string(b))
+	if err != nil {
+		return err
+	}
+	*h = d
+	return nil
+}
+
 // addresses of the fixed cast
 var (
 	addrOrigin   = addrOf(0x0a, 0x01)
@@ -28,13 +71,13 @@ var (
 	addrB        = addrOf(0xb0, 0xbb)
 	addrC        = addrOf(0xc0, 0xcc)
 	addrD        = addrOf(0xd0, 0xdd) // never exists: self-destruct beneficiary
-	addrE        = addrOf(0xe0, 0xee) // never exists: callee "empty account"
+	addrE        = addrOf(0xe0, 0xee) // never exists: callee "nonexistent account"
 	addrF        = addrOf(0xf0, 0x0f) // exists, balance only
 	addrW        = addrOf(0x70, 0x77) // STATICCALL wrapper
 )
 
-func addrOf(hi, lo byte) [20]byte {
-	var a [20]byte
+func addrOf(hi, lo byte) address {
+	var a address
 	a[0] = hi
 	for i := 1; i < 19; i++ {
 		a[i] = byte(0x10 + i)
@@ -43,19 +86,7 @@ func addrOf(hi, lo byte) [20]byte {
 	return a
 }
 
-func hexAddr(a [20]byte) string { return hex.EncodeToString(a[:]) }
-
-func unhex(s string) []byte {
-	b, err := hex.DecodeString(s)
-	if err != nil {
-		panic("harness: bad hex " + s)
-	}
-	return b
-}
-
 func hexs(b []byte) string { return hex.EncodeToString(b) }
-
-func utoa(u uint64) string { return strconv.FormatUint(u, 10) }
 
 func bigHex(s string) *big.Int {
 	v, ok := new(big.Int).SetString(s, 16)
@@ -65,14 +96,35 @@ func bigHex(s string) *big.Int {
 	return v
 }
 
-// ---------------------------------------------------------------- case and outcome
+func wordU(v uint64) word {
+	var w word
+	for i := 0; i < 8; i++ {
+		w[31-i] = byte(v >> (8 * uint(i)))
+	}
+	return w
+}
+
+func appendLen(b []byte, n int) []byte {
+	return append(b, byte(n>>24), byte(n>>16), byte(n>>8), byte(n))
+}
+
+func sortAddrs(a []address) {
+	sort.Slice(a, func(i, j int) bool { return bytes.Compare(a[i][:], a[j][:]) < 0 })
+}
+
+// ---------------------------------------------------------------- case
+
+type slot struct {
+	Key word `json:"key"`
+	Val word `json:"val"`
+}
 
 type account struct {
-	Addr    string      `json:"addr"`
-	Nonce   uint64      `json:"nonce,omitempty"`
-	Balance uint64      `json:"balance,omitempty"`
-	Code    string      `json:"code,omitempty"`
-	Storage [][2]string `json:"storage,omitempty"`
+	Addr    address  `json:"addr"`
+	Nonce   uint64   `json:"nonce,omitempty"`
+	Balance uint64   `json:"balance,omitempty"`
+	Code    hexBytes `json:"code,omitempty"`
+	Storage []slot   `json:"storage,omitempty"`
 }
 
 // txCase is one concrete transaction on one concrete pre-state: everything
@@ -83,9 +135,9 @@ type txCase struct {
 	Sig    map[string]string `json:"sig"`
 	Mode   string            `json:"mode"` // in-tree chain configuration: aligned | app
 	Pre    []account         `json:"pre"`
-	To     string            `json:"to,omitempty"`
+	To     address           `json:"to"`
 	Create bool              `json:"create,omitempty"`
-	Input  string            `json:"input"`
+	Input  hexBytes          `json:"input"`
 	Value  uint64            `json:"value,omitempty"`
 	// WorkLimit: the case is excluded when the reference does more than this much
 	// gas worth of instruction work (0 = workLimitDefault)
@@ -99,7 +151,85 @@ func (k *txCase) workLimit() uint64 {
 	return k.WorkLimit
 }
 
-func (k *txCase) Origin() string { return hexAddr(addrOrigin) }
+// baseKey identifies the pre-state without the contract code.
+func (k *txCase) baseKey() string {
+	var b []byte
+	for _, a := range k.Pre {
+		b = append(b, a.Addr[:]...)
+		b = appendLen(b, int(a.Nonce))
+		b = appendLen(b, int(a.Balance))
+		b = append(b, byte(len(a.Storage)))
+		for _, s := range a.Storage {
+			b = append(b, s.Key[:]...)
+			b = append(b, s.Val[:]...)
+		}
+	}
+	return string(b)
+}
+
+// preLocations: every account and storage slot of the pre-state.
+func (k *txCase) preLocations() *written {
+	w := newWritten()
+	for _, a := range k.Pre {
+		w.addr(a.Addr)
+		for _, s := range a.Storage {
+			w.slot(a.Addr, s.Key)
+		}
+	}
+	return w
+}
+
+// written: a set of accounts and storage slots.
+type written struct {
+	m map[address]map[word]struct{}
+}
+
+func newWritten() *written { return &written{m: map[address]map[word]struct{}{}} }
+
+func (w *written) addr(a address) {
+	if _, ok := w.m[a]; !ok {
+		w.m[a] = nil
+	}
+}
+
+func (w *written) slot(a address, k word) {
+	s := w.m[a]
+	if s == nil {
+		s = map[word]struct{}{}
+		w.m[a] = s
+	}
+	s[k] = struct{}{}
+}
+
+func (w *written) merge(o *written) {
+	for a, s := range o.m {
+		w.addr(a)
+		for k := range s {
+			w.slot(a, k)
+		}
+	}
+}
+
+func (w *written) sortedAddrs() []address {
+	l := make([]address, 0, len(w.m))
+	for a := range w.m {
+		l = append(l, a)
+	}
+	sortAddrs(l)
+	return l
+}
+
+func (w *written) sortedSlots(a address) []word {
+	s := w.m[a]
+	l := make([]word, 0, len(s))
+	for k := range s {
+		l = append(l, k)
+	}
+	sort.Slice(l, func(i, j int) bool { return bytes.Compare(l[i][:], l[j][:]) < 0 })
+	return l
+}
+
+// ---------------------------------------------------------------- outcome
 
 type meter struct {
 	Steps     int64  `json:"steps"`
@@ -113,24 +243,79 @@ type meter struct {
 	Cancelled bool   `json:"cancelled,omitempty"`
 }
 
-// outcome is the canonical outcome record of one side.
-type outcome struct {
-	Class    string `json:"class"` // success | revert | failure
-	Ret      string `json:"return"`
-	Logs     string `json:"logs"`
-	Suicides string `json:"selfdestructs"`
-	State    string `json:"state"`
-	ErrText  string `json:"err_text_informational,omitempty"`
-	Panic    string `json:"panic,omitempty"`
-	Meter    meter  `json:"meter"`
-
-	NLogs       int `json:"-"`
-	stateNoCode string
-	accts       []acctOut
+type acctOut struct {
+	Addr    address
+	Nonce   uint64
+	Balance string
+	Code    string // raw bytes
+	Storage string // raw key‖value pairs, sorted by key
+	nslots  int
 }
 
-type acctOut struct {
-	Addr, Nonce, Balance, Code, Storage string
+// outcome is the canonical outcome record of one side (raw byte strings; render
+// makes it readable).
+type outcome struct {
+	Class    string // success | revert | failure
+	Ret      string
+	Logs     string
+	Suicides string
+	State    string
+	ErrText  string
+	Panic    string
+	Meter    meter
+
+	NLogs    int
+	suicided []address
+	accts    []acctOut
+	w        *written
+}
+
+// firstDifference names the first field of the record in which the two sides
+// differ ("" = equal).  Nothing but the record is compared.
+func firstDifference(ref, it *outcome) string {
+	switch {
+	case ref.Class != it.Class:
+		return "class"
+	case ref.Ret != it.Ret:
+		return "return-data"
+	case ref.Logs != it.Logs:
+		return "logs"
+	case ref.Suicides != it.Suicides:
+		return "selfdestructs"
+	case ref.State != it.State:
+		return "state"
+	}
+	return ""
+}
+
+// render: the record as readable JSON.
+func (o *outcome) render() string {
+	type acc struct {
+		Nonce   uint64            `json:"nonce"`
+		Balance string            `json:"balance"`
+		Code    string            `json:"code"`
+		Storage map[string]string `json:"storage,omitempty"`
+	}
+	accts := map[string]acc{}
+	for _, a := range o.accts {
+		x := acc{Nonce: a.Nonce, Balance: a.Balance, Code: hexs([]byte(a.Code))}
+		for i := 0; i+64 <= len(a.Storage); i += 64 {
+			if x.Storage == nil {
+				x.Storage = map[string]string{}
+			}
+			x.Storage[new(big.Int).SetBytes([]byte(a.Storage[i:i+32])).Text(16)] = new(big.Int).SetBytes([]byte(a.Storage[i+32 : i+64])).Text(16)
+		}
+		accts[hexs(a.Addr[:])] = x
+	}
+	var sd []string
+	for _, a := range o.suicided {
+		sd = append(sd, hexs(a[:]))
+	}
+	b, _ := json.Marshal(map[string]interface{}{
+		"class": o.Class, "return": hexs([]byte(o.Ret)), "logs": hexs([]byte(o.Logs)), "selfdestructs": sd,
+		"accounts": accts, "err_text_informational": o.ErrText, "panic": o.Panic, "meter": o.Meter,
+	})
+	return string(b)
 }
 
 // symptom classifies HOW two differing records differ (part of the signature of a
@@ -140,7 +325,7 @@ func symptom(ref, it *outcome) string {
 	if ref.Class != it.Class {
 		return "class:" + ref.Class + "->" + it.Class
 	}
-	ra, ia := map[string]acctOut{}, map[string]acctOut{}
+	ra, ia := map[address]acctOut{}, map[address]acctOut{}
 	for _, a := range ref.accts {
 		ra[a.Addr] = a
 	}
@@ -175,23 +360,5 @@ func symptom(ref, it *outcome) string {
 	case ref.Ret != it.Ret:
 		return "return-data"
 	}
-	return "state-text"
-}
-
-// firstDifference names the first field of the record in which the two sides
-// differ ("" = equal).  Nothing but the record is compared.
-func firstDifference(ref, it *outcome) string {
-	switch {
-	case ref.Class != it.Class:
-		return "class"
-	case ref.Ret != it.Ret:
-		return "return-data"
-	case ref.Logs != it.Logs:
-		return "logs"
-	case ref.Suicides != it.Suicides:
-		return "selfdestructs"
-	case ref.State != it.State:
-		return "state"
-	}
-	return ""
+	return "state-encoding"
 }
